@@ -208,13 +208,45 @@ def _is_trigger(v: bytes) -> bool:
 
 def r55(e: Engine, rep: Report):
     got = _module_pattern(e, READER_MOD, 'fullline_pattern')
-    if got is None:
-        rep.error('anchor vanished: fullline_pattern = re.compile(...)')
-        return
-    pat, flags, node = got
     mod = e.p.modules[READER_MOD]
-    where = READER_MOD + '.fullline_pattern'
-    lt = line_terminator(pat, flags)
+    if got is None:
+        # no line pattern: the reader may cut the piece with
+        # `parts = piece.split(<sep>)`, pop the unfinished rest and walk the
+        # finished lines - then <sep> is the terminator, and no line body
+        # contains it
+        rc = common.merged_class(e, READER)
+        cut = None
+        for mname, m in sorted(rc.methods.items()):
+            for lp in walk_own(m.node):
+                if isinstance(lp, ast.For) and isinstance(lp.iter, ast.Name):
+                    ds = [a.value for a in walk_own(m.node)
+                          if isinstance(a, ast.Assign) and any(
+                              isinstance(t, ast.Name) and t.id == lp.iter.id
+                              for t in a.targets)]
+                    pops = [x for x in walk_own(m.node)
+                            if isinstance(x, ast.Call) and
+                            isinstance(x.func, ast.Attribute) and
+                            x.func.attr == 'pop' and not x.args and
+                            isinstance(x.func.value, ast.Name) and
+                            x.func.value.id == lp.iter.id]
+                    if len(ds) == 1 and len(pops) == 1 and \
+                            isinstance(ds[0], ast.Call) and \
+                            isinstance(ds[0].func, ast.Attribute) and \
+                            ds[0].func.attr == 'split' and \
+                            len(ds[0].args) == 1 and \
+                            isinstance(ds[0].args[0], ast.Constant) and \
+                            isinstance(ds[0].args[0].value, bytes):
+                        cut = (ds[0].args[0].value, m, ds[0])
+        if cut is None:
+            rep.error('anchor vanished: fullline_pattern = re.compile(...)')
+            return
+        pat, node = b'split(%r)' % cut[0], cut[2]
+        where = cut[1].qname
+        lt = (cut[0], False, False)
+    else:
+        pat, flags, node = got
+        where = READER_MOD + '.fullline_pattern'
+        lt = line_terminator(pat, flags)
     rep.evaluations += 1
     if lt is None:
         rep.unknown('R5.5', where, 'shape of the line pattern',
